@@ -116,6 +116,8 @@ type cliWorld struct {
 	onStop    []string
 	onStopSeq []int
 	onStopErr []error
+	closeArg     error // what OnStop receives for an orderly Close (calibration client)
+	haveCloseArg bool
 	cancelLog []string
 	cancelCount map[string]int
 
@@ -638,7 +640,22 @@ func (w *cliWorld) peerSender() {
 
 func (w *cliWorld) start() {
 	r := w.r
-	r.Sim.Spawn("a-main", func() { w.cli = jrpc2.NewClient(w.cEnd, w.options()) })
+	calibrate := w.cfg.Hooks && r.Gen.Chance("calibrateclose", 0.35)
+	r.Sim.Spawn("a-main", func() {
+		if calibrate {
+			// What does this build hand to OnStop for an orderly Close? A throw-away
+			// client on a channel of its own is closed at once to find out (the value
+			// must then not be what OnStop reports for a failed channel).
+			ce, pe := NewPipe(r, "cal", "calpeer")
+			ce.CloseUnblocks = true
+			cal := jrpc2.NewClient(ce, &jrpc2.ClientOptions{OnStop: func(_ *jrpc2.Client, err error) {
+				w.closeArg, w.haveCloseArg = err, true
+			}})
+			cal.Close()
+			pe.Close()
+		}
+		w.cli = jrpc2.NewClient(w.cEnd, w.options())
+	})
 	r.Sim.Spawn("p-recv", w.peerReceiver)
 	r.Sim.Spawn("p-send", w.peerSender)
 	for i, op := range w.ops {
